@@ -64,11 +64,25 @@ def run(cmd, timeout=60, mem=8 << 30):
     def lim():
         resource.setrlimit(resource.RLIMIT_AS, (mem, mem))
         resource.setrlimit(resource.RLIMIT_CORE, (0, 0))
+    # own session: a replay that forks scenario children (watchdog pattern) must not leave spinning grandchildren behind when it is killed
+    p = subprocess.Popen(cmd, stdout=subprocess.PIPE, stderr=subprocess.STDOUT, preexec_fn=lim, start_new_session=True)
     try:
-        p = subprocess.run(cmd, stdout=subprocess.PIPE, stderr=subprocess.STDOUT, timeout=timeout, preexec_fn=lim)
-        return p.returncode, p.stdout.decode(errors='replace')
-    except subprocess.TimeoutExpired as e:
-        return 'timeout', (e.stdout or b'').decode(errors='replace')
+        out, _ = p.communicate(timeout=timeout)
+        rc = p.returncode
+    except subprocess.TimeoutExpired:
+        _killpg(p.pid)
+        out, _ = p.communicate()
+        rc = 'timeout'
+    _killpg(p.pid)
+    return rc, (out or b'').decode(errors='replace')
+
+
+def _killpg(pgid):
+    import signal
+    try:
+        os.killpg(pgid, signal.SIGKILL)
+    except (ProcessLookupError, PermissionError):
+        pass
 
 
 def build_tbb_from_source(outdir, jobs=16, debug_files=()):
